@@ -503,6 +503,66 @@ def c12_namesfor(R):
 
 
 @rule(
+    "C12.queryvars",
+    props=("C12",),
+    floor=6,
+    family="SIB",
+    desc="every expression operand a CompositeFrontend query hands to the merged child (ms.eval(e, ..), ms.solution(e, v, ..), "
+    "ms.batch_eval(exprs, ..)) is also among the operands _merged_solver_for chose that child from: an operand left out "
+    "is judged in a solver that does not hold the constraints on its variables",
+)
+def c12_queryvars(R):
+    tree = R.tree
+    m = tree.mod(CF)
+    cls = tree.cls(CF, "SolverComposite") if "SolverComposite" in m.classes else tree.cls(CF, "CompositeFrontend")
+    n = 0
+    for name, fn in sorted(util.methods_of(cls).items()):
+        a = fn.args
+        params = [x.arg for x in a.posonlyargs + a.args + a.kwonlyargs]
+        pos = a.posonlyargs + a.args
+        defaults = dict(zip([x.arg for x in pos[len(pos) - len(a.defaults):]], a.defaults))
+        defaults.update({k.arg: d for k, d in zip(a.kwonlyargs, a.kw_defaults) if d is not None})
+        # options, not expressions: a count, or a parameter whose default is None / a bool / a number
+        scalar = {p for p, d in defaults.items() if isinstance(d, ast.Constant) and (d.value is None or isinstance(d.value, (bool, int, float)))} | {"n", "self"}
+        merged = {}  # local name -> the _merged_solver_for call it was assigned from
+        for st in walk_no_nested(fn):
+            if isinstance(st, ast.Assign) and len(st.targets) == 1 and isinstance(st.targets[0], ast.Name):
+                v = st.value
+                if isinstance(v, ast.Call) and isinstance(v.func, ast.Attribute) and v.func.attr == "_merged_solver_for":
+                    merged.setdefault(st.targets[0].id, []).append(v)
+        for c in walk_no_nested(fn):
+            if not (isinstance(c, ast.Call) and isinstance(c.func, ast.Attribute)):
+                continue
+            recv = c.func.value
+            if isinstance(recv, ast.Name) and recv.id in merged:
+                sources = merged[recv.id]
+            elif isinstance(recv, ast.Call) and isinstance(recv.func, ast.Attribute) and recv.func.attr == "_merged_solver_for":
+                sources = [recv]
+            else:
+                continue
+            if c.func.attr != name:
+                continue  # only the delegation of the query itself (not ms.add, ms.constraints, ..)
+            handed = {x.id for arg in list(c.args) + [k.value for k in c.keywords] for x in ast.walk(arg) if isinstance(x, ast.Name) and x.id in params} - scalar
+            if not handed:
+                continue
+            for src in sources:
+                chosen = {x.id for arg in list(src.args) + [k.value for k in src.keywords] for x in ast.walk(arg) if isinstance(x, ast.Name)}
+                n += 1
+                missing = sorted(handed - chosen)
+                R.check(
+                    not missing,
+                    m,
+                    src,
+                    f"{name}: the child is chosen from every operand it is then asked about",
+                    f"{cls.name}.{name} asks the merged child about {sorted(handed)} but chooses that child from {sorted(chosen & set(params))} only: "
+                    f"the variables of {missing} may live in another child, where their constraints are - solution(x, y) with "
+                    f"x == 5 in one child and y < 4 in another answers True for every y",
+                    construct=f"{name}: _merged_solver_for without {', '.join(missing)}",
+                )
+    R.need(n >= 6, f"only {n} delegated queries found in {cls.name}")
+
+
+@rule(
     "C13.splitfresh",
     props=("C13", "C14", "C15"),
     floor=1,
